@@ -39,6 +39,13 @@ def name_pool(tier, seed):
             names.append("".join(t))
     kw = re.findall(r'"([A-Za-z]+)"', open(os.path.join(vlib.COQ, "Gen", "Keywords.v")).read())
     names += kw + [k.capitalize() for k in kw] + [k.upper() for k in kw] + ["r#" + k for k in kw]
+    special = kw + ["Self", "self", "Vec", "Option", "Type", "1", "1a", "_", "a"]
+    for k in special:
+        for pre in ["-", "--", "_", "-r#", "r#-", " ", "-_", "@", "1"]:
+            names.append(pre + k)
+        for suf in ["-", "_", " ", "_2", "2"]:
+            names.append(k + suf)
+            names.append("-" + k + suf)
     names += ["r#type", "r#1x", "r#", "r#_", "-foo", "-1", "--a", "XMLParser", "fooBar", "FOO_BAR", "foo__bar", "a.b",
               "union", "'static", "x-rate-limit", "@odata.type", "$ref", "a/b", "émigré", "日本語", "naïve_Café",
               "-Self", "r#Self", "Self_", "_self", "self-", "9lives", "a b c", "A1B2", "aB1-cD2", "__x__", "x__", "İ"]
@@ -189,6 +196,75 @@ def scope_part(res, exe, tier, seed):
     return cases, viol, known_hits
 
 
+MODULE_FAMILIES = [(("Order", "item_status"), ("OrderItem", "status")), (("User", "profile_kind"), ("UserProfile", "kind")),
+                   (("A", "b_c"), ("AB", "c")), (("Pet", "tag_info"), ("PetTag", "info"))]
+INLINE_KINDS = {
+    "obj_desc": {"type": "object", "description": "counters", "properties": {"n": {"type": "integer"}}},
+    "obj": {"type": "object", "properties": {"m": {"type": "string"}}},
+    "enum_ab": {"type": "string", "enum": ["a", "b"]},
+    "enum_xy": {"type": "string", "enum": ["x", "y"], "description": "state"},
+}
+
+
+def module_part(tier, seed):
+    """inline types whose Parent+Prop names coincide: module items must stay distinct and keep their kind"""
+    d = vlib.scratch("C09m")
+    cases = []
+    for (p1, f1), (p2, f2) in MODULE_FAMILIES:
+        for k1 in INLINE_KINDS:
+            for k2 in INLINE_KINDS:
+                cases.append(((p1, f1, k1), (p2, f2, k2)))
+
+    def one(i):
+        (p1, f1, k1), (p2, f2, k2) = cases[i]
+        spec = {"openapi": "3.1.0", "info": {"title": "t", "version": "1"}, "paths": {},
+                "components": {"schemas": {p1: {"type": "object", "properties": {f1: INLINE_KINDS[k1]}},
+                                           p2: {"type": "object", "properties": {f2: INLINE_KINDS[k2]}}}}}
+        sp = os.path.join(d, f"s{i}.json")
+        json.dump(spec, open(sp, "w"))
+        out = os.path.join(d, f"o{i}.rs")
+        rc, txt = vlib.oas(["generate", "types", "-i", sp, "-o", out, "-q", "--all-schemas"])
+        return rc, txt, out
+    outs = vlib.pmap(one, range(len(cases)))
+    dumps = vlib.vtool_lines("dump", [o[2] for o in outs])
+    viol = []
+    raw = sorted({x for fam in MODULE_FAMILIES for (pp, ff) in fam for x in (pp, ff)})
+    pr = subprocess.run([PROBE], input="\n".join(hx(n.encode()) for n in raw) + "\n", stdout=subprocess.PIPE, text=True)
+    tname = {n: unhx(l.split(" ")[1]).decode() for n, l in zip(raw, pr.stdout.split("\n"))}
+    fname = {n: unhx(l.split(" ")[0]).decode() for n, l in zip(raw, pr.stdout.split("\n"))}
+    for case0, (rc, txt, _), dump in zip(cases, outs, dumps):
+        case = tuple((tname[p], fname[f], k) for (p, f, k) in case0)
+        if rc != 0 or "error" in dump:
+            viol.append((case, f"generator failed on {case}: rc={rc} {txt[-200:]}"))
+            continue
+        items = [x for x in dump["items"] if x["kind"] in ("struct", "enum", "type")]
+        names = [x["name"] for x in items]
+        if len(set(names)) != len(names):
+            viol.append((case, f"{case}: duplicate module items {sorted(n for n in names if names.count(n) > 1)}"))
+            continue
+        kind_of = {x["name"]: x["kind"] for x in items}
+        tys = []
+        for (p, f, k) in case:
+            st = [x for x in items if x["name"] == p and x["kind"] == "struct"]
+            if not st:
+                viol.append((case, f"{case}: struct {p} missing"))
+                break
+            fl = [y for y in st[0]["fields"] if y["name"] == f]
+            if not fl:
+                viol.append((case, f"{case}: field {p}.{f} missing"))
+                break
+            ment = [m for m in fl[0]["mentions"] if m in kind_of]
+            want = "struct" if k.startswith("obj") else "enum"
+            if not ment or kind_of[ment[0]] != want:
+                viol.append((case, f"{case}: {p}.{f} is an inline {want} in the spec but is typed {fl[0]['ty']} ({kind_of.get(ment[0]) if ment else 'no generated type'})"))
+                break
+            tys.append(ment[0])
+        else:
+            if case[0][2] != case[1][2] and tys[0] == tys[1]:
+                viol.append((case, f"{case}: two different inline schemas share the type {tys[0]}"))
+    return cases, viol
+
+
 def _is_f1(props):
     """the recorded class: two properties share a Rust name b and a third property's Rust name is b_<i>"""
     import subprocess
@@ -223,6 +299,9 @@ def main(tier, seed, replay=None):
         res.oblige(f"correspondence: model = implementation on {len(names)} names x 3 sanitisers", not dis, dis[0] if dis else "")
     cases, viol2, kh2 = scope_part(res, exe, tier, seed)
     known_hits |= kh2
+    mcases, viol3 = module_part(tier, seed)
+    viol2 = viol2 + viol3
+    cases = cases + mcases
     res.counts.update({"evaluations": len(names) * 3 + len(cases), "distinct_nontrivial": len(names),
                        "traces_validated_against_impl": len(names) if exe else 0, "scope_cases": len(cases),
                        "rule": f"every string over the 14-symbol alphabet up to length {3 if tier=='quick' else 5}, every keyword in 4 spellings, a hand list and random Unicode strings through the real sanitisers (compiled by #[path]) and the extracted model; legality of the implementation's results decided by the model's legal_ident; plus collision classes (pairs/triples) placed in struct-field and enum-variant scopes through the CLI"})
